@@ -189,6 +189,7 @@ def check(ctx):
             oracle(ctx, pname, style, T, full, trace)
         if ws:
             ctx.sample({'protocol': pname, 'T': T, 'word': [list(e) for e in ws[len(ws) // 2]]})
+    cross_protocol(ctx, vlib.rng('c12cross'))
     import protos
     for x in protos.all_decoders():
         x.enabled = True
@@ -250,6 +251,133 @@ def oracle(ctx, pname, style, T, word, trace):
     for obj in rel_times:
         if obj not in dec_times:
             ctx.violation(pname, 'release-without-press', 'object %s released but never delivered; word %s' % (obj[0], inp['word']), F, input=inp)
+
+
+CROSS = [('Samsung20', 'Sony12'), ('NEC', 'Sony12'), ('JVC', 'NEC'), ('Sony12', 'Panasonic')]
+
+
+class CrossRun:
+    """two enabled protocols with different repeat timeouts, one key of each: the REAL dispatcher, decoders, timers and
+    worker loops under the virtual clock (no model: the event machine has one protocol)"""
+    def __init__(self, pnames):
+        import realenv, protos
+        self.env, self.protos = realenv, protos
+        self.ds = [protos.by_name(n) for n in pnames]
+        for x in protos.all_decoders():
+            x.enabled = x in self.ds
+        realenv.reset_dispatcher()
+        self.frames, self.T, self.keys = {}, {}, {}
+        for i, d in enumerate(self.ds):
+            r = vlib.rng('c12cross', d.name)
+            for _ in range(50):
+                p = protos.sample_params(d, r)
+                try:
+                    fr = protos.frames(protos.encode(d, p))[0]
+                    c0 = protos.fresh(d).decode(list(fr), d.frequency)
+                    if protos.view(c0, list(p)) == p:
+                        break
+                except Exception:
+                    continue
+            self.frames[i + 1] = fr
+            self.keys[i + 1] = (d, p)
+            self.T[i + 1] = d.repeat_timeout or sum(abs(x) for x in fr)
+        self.ids = {}
+        self.out = []
+        realenv.protocols.bind_callback(self._decoded)
+
+    def oid(self, code):
+        if id(code) not in self.ids:
+            self.ids[id(code)] = (len(self.ids), code)
+        return self.ids[id(code)][0]
+
+    def key_of(self, code):
+        for k, (d, p) in self.keys.items():
+            if code.decoder is d or code.decoder.__class__ is d.__class__:
+                return k
+        return 0
+
+    def _decoded(self, code):
+        self.out.append(('decoded', self.oid(code), self.key_of(code)))
+        code.bind_released_callback(self._released)
+
+    def _released(self, code):
+        self.out.append(('released', self.oid(code), self.key_of(code)))
+
+    def event(self, ev):
+        env = self.env
+        self.out = []
+        if ev[0] == 'frame':
+            d = self.keys[ev[1]][0]
+            env.protocols.decode(list(self.frames[ev[1]]), d.frequency)
+            env.drain_process()
+        elif ev[0] == 'adv':
+            env.clock.advance(ev[1]); env.poll_timers(); env.drain_process()
+        elif ev[0] == 'clk':
+            env.clock.advance(ev[1])
+        elif ev[0] == 'poll':
+            env.poll_timers(); env.drain_process()
+        return list(self.out)
+
+
+def cross_protocol(ctx, r):
+    """keys of two protocols with different timeouts interleaved: exactly one release per delivered code, none while its
+    frames keep arriving, and the release is signalled at the first poll after the code's own padded timeout"""
+    import itertools as it
+    for pn in CROSS:
+        try:
+            probe = CrossRun(pn)
+        except Exception as e:
+            ctx.notes.append('cross %s not usable: %s' % (pn, type(e).__name__))
+            continue
+        T1, T2 = probe.T[1], probe.T[2]
+        lo, hi = min(T1, T2), max(T1, T2)
+        small = int(lo * 0.5)
+        mid = int((1.2 * lo + min(1.2 * hi, 2.4 * lo)) / 2) if hi > lo * 1.1 else int(lo * 1.3)
+        big = int(hi * 1.5) + 50
+        base = [('frame', 1), ('frame', 2), ('adv', small), ('adv', mid), ('adv', big), ('clk', mid), ('poll',)]
+        depth = 4 if not ctx.thorough else 5
+        ws = [w for n in range(2, depth + 1) for w in it.product(base, repeat=n) if any(e[0] == 'frame' for e in w)]
+        lim = 250 if not ctx.thorough else 4000
+        if len(ws) > lim:
+            short = [w for w in ws if len(w) <= 3]
+            ws = short + r.sample([w for w in ws if len(w) > 3], max(0, lim - len(short)))
+        for w in ws:
+            run = CrossRun(pn)
+            now = 0
+            last_dec, rels, delivered = {}, {}, {}
+            F = dict(protocols=list(pn))
+            full = list(w) + [('adv', int(hi * 3))]
+            inp = dict(protocols=list(pn), word=[list(e) for e in w])
+            for ev in full:
+                if ev[0] in ('adv', 'clk'):
+                    now += ev[1]
+                outs = run.event(ev)
+                for kind, oid, key in outs:
+                    if kind == 'decoded':
+                        last_dec[oid] = now; delivered[oid] = key
+                    else:
+                        rels.setdefault(oid, []).append(now)
+                        if oid not in delivered:
+                            ctx.violation('cross ' + '+'.join(pn), 'release-without-press', 'object %d released but never delivered; word %s' % (oid, inp['word']), F, input=inp)
+                        elif now - last_dec[oid] < run.T[delivered[oid]] and ev[0] != 'frame':
+                            ctx.violation('cross ' + '+'.join(pn), 'released-while-held', 'object %d (key %d) released %d us after its last frame, timeout %d; word %s' % (
+                                oid, delivered[oid], now - last_dec[oid], run.T[delivered[oid]], inp['word']), F, input=inp)
+                if ev[0] in ('adv', 'poll'):
+                    for oid, key in delivered.items():
+                        if oid not in rels and now - last_dec[oid] > 1.2 * run.T[key] + 10:
+                            ctx.violation('cross ' + '+'.join(pn), 'release-overdue', 'object %d (key %d of %s): no release although %d us have passed since its last frame (padded timeout %d) and the timer thread has polled; word %s' % (
+                                oid, key, pn[key - 1], now - last_dec[oid], int(1.2 * run.T[key]), inp['word']), F, input=inp)
+                            rels[oid] = ['overdue']
+            for oid, key in delivered.items():
+                n = len([x for x in rels.get(oid, []) if x != 'overdue'])
+                presses = 1
+                if n > presses and not any(x == 'overdue' for x in rels.get(oid, [])):
+                    ctx.violation('cross ' + '+'.join(pn), 'released-more-than-once', 'object %d: %d releases; word %s' % (oid, n, inp['word']), F, input=inp)
+            ctx.count(('cross', pn, w))
+    import protos, realenv
+    for x in protos.all_decoders():
+        x.enabled = True
+    realenv.reset_dispatcher()
 
 
 def replay(path):
